@@ -23,6 +23,13 @@ CLASSIC = [("J/N", "m"), ("V*A", "W"), ("C/s", "A"), ("N*m", "J"), ("W*s", "J"),
 
 def gen_pairs(rng, V, n):
     pairs = [p for p in CLASSIC if "Ω" not in p[1]]
+    # spellings whose dimensions cancel completely, against units that do have a dimension (and against each other)
+    cancelling = ["Bq*s", "J/N*m", "V*A/W", "Hz*s", "N/N", "m*s/s*m", "W*s/J", "Pa*m^2/N", "C/A*s", "lm/cd", "km/m", "hr/s", "m^2/m^2"]
+    for c in cancelling:
+        for _ in range(3):
+            pairs.append((c, V.unit_expr(rng, nfactors=rng.choice([1, 2]))))
+            pairs.append((V.unit_expr(rng, nfactors=1), c))
+        pairs.append((c, rng.choice(cancelling)))
     while len(pairs) < n:
         c = rng.random()
         u1 = V.unit_expr(rng)
